@@ -7,7 +7,7 @@ import Mav.Basic
 -/
 namespace Mav.Prov
 
-inductive End | err (k : Nat) | eof | reset | timeout
+inductive End | err (k : Nat) | eof | reset | timeout | refused
 deriving DecidableEq, Repr
 
 inductive Outcome | fail | ok (frames : Nat) (e : End)
